@@ -51,12 +51,44 @@ pub fn check_msg(m: &M, st: &mut Stats) -> Result<(), String> {
                 let _ = Frame::read(&mut garbled);
                 let back = Frame::from_bytes(&wire).map_err(|e| format!("wire form {} of {} does not decode: {e}", show_bytes(&wire), m.short()))?;
                 // the same trip through the stream interface (Frame::write -> Frame::read)
-                let mut pipe: Vec<u8> = vec![];
-                frame.write(&mut pipe).map_err(|e| format!("Frame::write into a Vec failed: {e}"))?;
-                let mut rd: &[u8] = &pipe;
+                // (a writer that implements nothing but write(): default write_all / write_vectored / flush)
+                struct OnlyWrite(Vec<u8>);
+                impl std::io::Write for OnlyWrite {
+                    fn write(&mut self, buf: &[u8]) -> std::io::Result<usize> {
+                        let n = buf.len().min(7);
+                        self.0.extend_from_slice(&buf[..n]);
+                        Ok(n)
+                    }
+                    fn flush(&mut self) -> std::io::Result<()> {
+                        Ok(())
+                    }
+                }
+                let mut pipe = OnlyWrite(vec![]);
+                frame.write(&mut pipe).map_err(|e| format!("Frame::write into a plain writer failed: {e}"))?;
+                frame.write(&mut pipe).map_err(|e| format!("second Frame::write into a plain writer failed: {e}"))?;
+                let pipe = pipe.0;
+                // (a reader that serves two bytes per call and reports Interrupted on every third call)
+                struct Choppy<'x>(&'x [u8], usize);
+                impl std::io::Read for Choppy<'_> {
+                    fn read(&mut self, buf: &mut [u8]) -> std::io::Result<usize> {
+                        self.1 += 1;
+                        if self.1 % 3 == 0 {
+                            return Err(std::io::Error::new(std::io::ErrorKind::Interrupted, "interrupted"));
+                        }
+                        let n = buf.len().min(2).min(self.0.len());
+                        buf[..n].copy_from_slice(&self.0[..n]);
+                        self.0 = &self.0[n..];
+                        Ok(n)
+                    }
+                }
+                let mut rd = Choppy(&pipe, 0);
                 let back2 = Frame::read(&mut rd).map_err(|e| format!("{} written with Frame::write does not read back: {e}", m.short()))?;
                 if back2 != back {
                     return Err(format!("{}: Frame::write -> Frame::read gives {back2:?}, decoding the wire text gives {back:?}", m.short()));
+                }
+                let back3 = Frame::read(&mut rd).map_err(|e| format!("{} written twice with Frame::write: the second frame does not read back: {e}", m.short()))?;
+                if back3 != back {
+                    return Err(format!("{}: the second of two frames written back to back reads as {back3:?}", m.short()));
                 }
                 let msg2 = Message::from(back);
                 if msg2 != msg {
